@@ -43,7 +43,9 @@ def enum_values(src, etype, extra_flags=()):
             continue
         v = None
         for i in c.get('inner', []):
-            v = _const_value(i)
+            vi = _const_value(i)      # a trailing doc comment (FullComment child) must not erase the initialiser's value
+            if vi is not None:
+                v = vi
         if v is None:
             v = nxt
         vals[c['name']] = v
@@ -74,7 +76,7 @@ def global_const(src, name, profile, extra_flags=()):
         raise astx.ExtractError('global %s: %d definitions found' % (name, len(ids)))
     d = decls[0]
     lw = Lowerer(d, name, profile)
-    ct = lw.ntype(d)
+    ct = lw.ntype(d) if '[' not in qt(d) else None
     init = [c for c in d['inner'] if isinstance(c, dict) and 'kind' in c and not c['kind'].endswith('Comment')][0]
     if '[' in qt(d):
         m = re.match(r'(.*?)\s*\[(\d+)\]', strip_type(qt(d)))
